@@ -15,7 +15,7 @@ import (
 )
 
 func TestMain(m *testing.M) {
-	vstat.Rule("Generated histories of inc(v)/count/advance(d) on RollingCounter and IncA/IncB/Ratio on RatioCounter under a frozen clock; N in 1..20, resolution from {1s,1.5s,2s,2.5s,3s,7s,10s,1min} or a random ns-granular duration in [1s,100s], start instant with random phase, steps from {sub-resolution, ~resolution, exact multiples, several slots, >= one window, several windows}. Oracle: reference list of all increments; at every read sum(age <= (N-1)r) <= Count <= sum(age < Nr); Ratio within the interval implied by the two brackets and exactly 0 when both upper sums are 0. Non-trivial: (resolution != 1s or an idle gap > one window or increments in >= 3 slots) and lower != upper at >= 1 read. Histories may also append another counter (same or other geometry) filled at that instant: its events count as increments made now. TestC17_RoundTripMetrics: RTMetrics with RTCounter geometry 2-40 buckets x {1,1.5,2,3,10} s; record/advance/append(collector of the same builder filled now)/read; TotalCount, NetworkErrorCount and every StatusCodesCounts entry inside the same bracket.")
+	vstat.Rule("Generated histories of inc(v)/count/advance(d) on RollingCounter and IncA/IncB/Ratio on RatioCounter under a frozen clock; N in 1..20, resolution from {1s,1.5s,2s,2.5s,3s,7s,10s,1min} or a random ns-granular duration in [1s,100s], start instant with random phase, steps from {sub-resolution, ~resolution, exact multiples, several slots, >= one window, several windows}. Oracle: reference list of all increments; at every read sum(age <= (N-1)r) <= Count <= sum(age < Nr); Ratio within the interval implied by the two brackets and exactly 0 when both upper sums are 0. Non-trivial: (resolution != 1s or an idle gap > one window or increments in >= 3 slots) and lower != upper at >= 1 read. Histories may also append another counter (same or other geometry) filled at that instant: its events count as increments made now. TestC17_RoundTripMetrics: RTMetrics with RTCounter geometry 2-40 buckets x {1,1.5,2,3,10} s; record/advance/append(collector of the same builder filled now)/read; TotalCount, NetworkErrorCount and every StatusCodesCounts entry inside the same bracket; the collector may be Reset() in between (earlier events forgotten, later ones counted as before).")
 	vstat.Main(m.Run)
 }
 
@@ -347,7 +347,7 @@ func TestC17_RoundTripMetrics(t *testing.T) {
 		var all, neterr []ev
 		var now time.Duration
 		var log []string
-		appended, readsDiffer := 0, false
+		appended, readsDiffer, resets := 0, false, 0
 		note := func(code, k int) {
 			perCode[code] = append(perCode[code], ev{now, k})
 			all = append(all, ev{now, k})
@@ -382,7 +382,13 @@ func TestC17_RoundTripMetrics(t *testing.T) {
 			}
 		}
 		for i := rapid.IntRange(3, 50).Draw(t, "nops"); i > 0; i-- {
-			switch rapid.IntRange(0, 9).Draw(t, "op") {
+			switch rapid.IntRange(0, 10).Draw(t, "op") {
+			case 10: // the collector is reset (a circuit breaker does this at every state change): what was
+				// recorded so far is forgotten, what is recorded from now on counts as before
+				m.Reset()
+				all, neterr, perCode = nil, nil, map[int][]ev{}
+				resets++
+				log = append(log, fmt.Sprintf("+%v reset", now))
 			case 8: // a burst of many different status codes (a scanner, an API with codes of its own), each once
 				if swept {
 					break
@@ -455,6 +461,9 @@ func TestC17_RoundTripMetrics(t *testing.T) {
 		}
 		if len(exports) > 0 {
 			cl = append(cl, "exported-copy-read-later")
+		}
+		if resets > 0 {
+			cl = append(cl, "collector-reset-then-used-again")
 		}
 		vstat.Case(fmt.Sprintf("rt|%d|%v|%v|%s", n, r, phase, strings.Join(log, ";")), readsDiffer || appended > 0, cl, map[string]any{"buckets": n, "resolution": r.String(), "history": log})
 	})
